@@ -77,7 +77,7 @@ func runC15(c *Ctx) {
 		nAdd := len(f.Calls(func(c *ast.CallExpr) bool { return strings.HasSuffix(rawKey(c.Fun), ".triggerCount.Add") }))
 		nLoad := len(f.Calls(func(c *ast.CallExpr) bool { return strings.HasSuffix(rawKey(c.Fun), ".triggerCount.Load") }))
 		okCmp := false
-		recv := fd.Recv.List[0].Names[0].Name
+		recv := recvIdentOf(fd).Name
 		for _, pt := range f.Find(func(n ast.Node) bool { _, ok := n.(*ast.ReturnStmt); return ok }) {
 			rs := f.nodeAt(pt).(*ast.ReturnStmt)
 			if len(rs.Results) != 1 {
@@ -366,7 +366,7 @@ func checkPromiseEvents(r *Reporter, p *Prog) {
 		// Judged on Trigger's graph with the locked section in place, whether that section is a literal
 		// invoked on the spot, a local closure or a named helper.
 		f := newFuncCFG(p, info, fd.Body, key)
-		recvObj := info.Defs[fd.Recv.List[0].Names[0]]
+		recvObj := info.Defs[recvIdentOf(fd)]
 		mu := fmt.Sprintf("%s@%d.mutex", recvObj.Name(), recvObj.Pos())
 		held := f.LocksHeld(nil)
 		isSwap := func(n ast.Node) bool {
@@ -491,7 +491,7 @@ func checkPromiseOnTrigger(r *Reporter, p *Prog, pkg, t string) {
 		return
 	}
 	f := newFuncCFG(p, info, fdo.Body, okey)
-	recvObj := info.Defs[fdo.Recv.List[0].Names[0]]
+	recvObj := info.Defs[recvIdentOf(fdo)]
 	mu := fmt.Sprintf("%s@%d.mutex", recvObj.Name(), recvObj.Pos())
 	held := f.LocksHeld(nil)
 	params := paramObjs(info, fdo)
@@ -681,7 +681,7 @@ func checkValueNotifier(r *Reporter, p *Prog) {
 			cl, ok := n.(*ast.CallExpr)
 			return ok && strings.HasSuffix(exprKey(cl.Fun), ".listeners.Delete")
 		}
-		recvObj := info.Defs[fd.Recv.List[0].Names[0]]
+		recvObj := info.Defs[recvIdentOf(fd)]
 		recvPath := fmt.Sprintf("%s@%d", recvObj.Name(), recvObj.Pos())
 		// on the graph with the helpers in place: the close may live in a helper shared by both
 		closes := f.Calls(func(cl *ast.CallExpr) bool { return rawKey(cl.Fun) == "close" })
